@@ -62,8 +62,25 @@ fn maps(rounds: usize, rng: &mut Lcg) {
         for _ in 0..14 {
             let k = rng.below(4) as u8;
             let v = rng.below(1000) as u32;
-            match rng.below(10) {
+            match rng.below(16) {
                 0 | 1 => assert_eq!(a.insert(k, v), b.insert(k, v)),
+                10 => assert_eq!(ta.insert(k, vec![v]), tb.insert(k, vec![v])),
+                11 => assert_eq!(ta.remove(&k), tb.remove(&k)),
+                12 => assert_eq!(ta.contains_key(&k), tb.contains_key(&k)),
+                13 => {
+                    let (mut xa, mut xb) = (ta.split_off(&k), tb.split_off(&k));
+                    let ia: Vec<(u8, Vec<u32>)> = xa.iter().map(|(k, v)| (*k, v.clone())).collect();
+                    let ib: Vec<(u8, Vec<u32>)> = xb.iter().map(|(k, v)| (*k, v.clone())).collect();
+                    assert_eq!(ia, ib, "split_off tail");
+                    if rng.below(2) == 0 { ta.append(&mut xa); tb.append(&mut xb); }
+                }
+                14 => { ta.retain(|kk, _| *kk != k); tb.retain(|kk, _| *kk != k); }
+                15 => {
+                    assert_eq!(ta.first_key_value().map(|(k, _)| *k), tb.first_key_value().map(|(k, _)| *k));
+                    assert_eq!(ta.last_key_value().map(|(k, _)| *k), tb.last_key_value().map(|(k, _)| *k));
+                    assert_eq!(ta.keys().copied().collect::<Vec<u8>>(), tb.keys().copied().collect::<Vec<u8>>());
+                    assert_eq!(ta.get(&k), tb.get(&k));
+                }
                 2 => assert_eq!(a.remove(&k), b.remove(&k)),
                 3 => assert_eq!(a.get(&k), b.get(&k)),
                 4 => assert_eq!(a.contains_key(&k), b.contains_key(&k)),
